@@ -503,9 +503,9 @@ def run_correspondence(res, tier, seed):
             case = (14, cfg, t, k)
             o = None
             for which in (0, 1, 2):
-                if which == 2 and r0[0] != 0:
+                if which != 0 and r0[0] != 0:
                     # a tree that fails without any fault (malformed custom return, too deep): the
-                    # agenda-based iterator meets that error and the injected one in another order
+                    # other traversals meet that error and the injected one in another order (K1 / K3)
                     continue
                 ob = impl_fault(cfg, t, k, random.Random(i), which)
                 if ob[0] == 0 and which == 2:
